@@ -9,7 +9,7 @@
    shown is therefore that nothing a bundle answers depends on the root other
    than as a prefix, nor on anything but the document. *)
 From Slug Require Import Base.Str Base.PathAlg Base.PathLemmas Addr.Resolve Addr.ResolveProofs
-  Addr.Url Addr.Parse Bundle.Lookup Bundle.LookupProofs Bundle.BestKey.
+  Addr.Url Addr.Parse Bundle.Lookup Bundle.LookupProofs Bundle.BestKey Bundle.ManifestRT.
 
 (* the same packages, metadata, registry packages, versions, source addresses and
    deprecation notes, whichever directory the manifest is opened in; and it opens
@@ -111,3 +111,42 @@ Definition tie_check (root : string) : bool :=
   end.
 Example C09_tie_example : tie_check "/bundle" = true /\ tie_check "/somewhere/else" = true.
 Proof. vm_compute. split; reflexivity. Qed.
+
+(* What Close writes, OpenDir reads back (the package section of the manifest).
+   For every directory table of the builder that is a map (one directory per
+   package) whose package addresses print to text that parses back to them (C06)
+   and whose directory names are plain ASCII names, and every metadata table:
+   the document written by writeManifest - one record per package, sorted by the
+   printed address - is accepted by OpenDir, and the opened bundle knows exactly
+   the builder's packages, each in the builder's directory, with the builder's
+   metadata (an entry that carries nothing comes back as none).  The same holds
+   for the records in any other order. *)
+Theorem C09_what_close_writes_open_reads :
+  forall dirs meta,
+    NoDup (map fst dirs) ->
+    (forall p d, In (p, d) dirs ->
+       all_ascii d = true /\ local_dir_ok d = true /\ parse_remote_pkg (rpkg_string p) = Ok p) ->
+    exists dirs' meta',
+      load_packages (write_packages dirs meta) [] [] = Ok (dirs', meta') /\
+      (forall k, alookup rpkg_eqb k dirs' = alookup rpkg_eqb k (load_all rpkg_eqb dirs [])) /\
+      (forall k, alookup rpkg_eqb k meta' = expected_meta dirs meta k).
+Proof. exact reopen_written. Qed.
+
+(* the hypotheses are satisfiable, and the lookups of the reopened bundle are the builder's *)
+Example C09_close_open_instance :
+  match parse_remote_pkg (s2l "git::https://example.com/p0.git?ref=v2"), parse_remote_pkg (s2l "https://example.org/dl/p4.tar.gz") with
+  | Ok p0, Ok p4 =>
+      let dirs := [(p4, s2l "Lz6d5l"); (p0, s2l "IgH0C3")] in
+      let meta := [(p0, (s2l "abc123", [])); (p4, ([], []))] in
+      parse_remote_pkg (rpkg_string p0) = Ok p0 /\ parse_remote_pkg (rpkg_string p4) = Ok p4 /\
+      map mp_source (write_packages dirs meta) = [s2l "git::https://example.com/p0.git?ref=v2"; s2l "https://example.org/dl/p4.tar.gz"] /\
+      match open_dir (s2l "/b") (mkManifest 1 (write_packages dirs meta) []) with
+      | Ok b => local_path_remote b p0 (s2l "sub") = Some (s2l "/b/IgH0C3/sub") /\
+                alookup rpkg_eqb p0 (b_meta b) = Some (s2l "abc123", []) /\ alookup rpkg_eqb p4 (b_meta b) = None
+      | _ => False
+      end
+  | _, _ => False
+  end.
+Proof. vm_compute. repeat split. Qed.
+
+Print Assumptions C09_what_close_writes_open_reads.
